@@ -238,6 +238,19 @@ pub fn gen(tier: &str, rng: &mut Rng, emit: &mut dyn FnMut(String)) {
             emit(format!("door {d} {}", hex(t.as_bytes())));
         }
     });
+    for l in sweep_lengths(tier) {
+        let a = "a".repeat(l);
+        emit(format!("door parse {}", hex(format!("/{a}~").as_bytes())));
+        emit(format!("door bufparse {}", hex(format!("/{a}/~0").as_bytes())));
+    }
+    for l in SCALE_64K {
+        let a = "a".repeat(l);
+        for t in [format!("/{a}~"), format!("/{a}/~1"), format!("{a}/b~1r"), format!("/{a}")] {
+            for d in ["parse", "bufparse", "tryfromstring"] {
+                emit(format!("door {d} {}", hex(t.as_bytes())));
+            }
+        }
+    }
     for s in boundary_texts(tier) {
         let variants = [s.clone(), format!("/{s}"), format!("/{}", rfc_escape(&s)), format!("/ab/{}/cd", rfc_escape(&s).replace('/', "~1"))];
         for (i, t) in variants.iter().enumerate() {
